@@ -43,7 +43,7 @@ PROPERTIES = {
     },
     "C02": {
         "runs": {
-            "quick": [H("HarnessC02a", b(N=3, K1=1, CACHE=1, PERSISTFIRST=1, HREQ=-1, TMASK=7)),
+            "quick": [H("HarnessC02a", b(N=3, K1=1, CACHE=1, PERSISTFIRST=1, HREQ=-1, TMASK=7)), H("HarnessC02a", b(N=3, K1=1, CACHE=1, PERSISTFIRST=1, FRESHCACHE=1, HREQ=-1, TMASK=12)),
                       # two writers through one shared interior node: height-1 base, two trees re-loaded through the cache, inserts only
                       H("HarnessC02a", b(N=3, K1=2, CACHE=1, PERSISTFIRST=1, HREQ=1, TMASK=12, INSERTONLY=1, LPAT=3), sample_every=500)],
             "thorough": [H("HarnessC02a", b(N=3, K1=1, CACHE=c, PERSISTFIRST=p, HREQ=-1, TMASK=15), sample_every=500) for c in (0, 1, 2) for p in (0, 1)] +
@@ -65,10 +65,11 @@ PROPERTIES = {
     },
     "C05": {
         "runs": {
-            "quick": [H("HarnessC05a", b(K=2, K2=1, FMT=0, CACHE=0)), H("HarnessC05a", b(K=2, K2=1, FMT=1, CACHE=1)), H("HarnessC05a", b(K=2, K2=1, FMT=2, CACHE=0)), H("HarnessC05a", b(K=1, K2=2, FMT=0, CACHE=1)), H("HarnessC05a", b(K=2, K2=2, FMT=0, CACHE=1), sample_every=500)],
+            "quick": [H("HarnessC05a", b(K=2, K2=1, FMT=0, CACHE=0)), H("HarnessC05a", b(K=2, K2=1, FMT=1, CACHE=1)), H("HarnessC05a", b(K=2, K2=1, FMT=2, CACHE=0)), H("HarnessC05a", b(K=1, K2=2, FMT=0, CACHE=1)), H("HarnessC05a", b(K=2, K2=2, FMT=0, CACHE=1), sample_every=500),
+                      H("HarnessC05a", b(N0=3, K=0, K2=1, FMT=0, CACHE=0), sample_every=50), H("HarnessC05a", b(N0=3, K=0, K2=1, FMT=0, CACHE=1), sample_every=50)],
             "thorough": [H("HarnessC05a", b(K=3, K2=1, FMT=f, CACHE=c), sample_every=200) for f in (0, 1, 2) for c in (0, 1)],
         },
-        "must_reach": ["C05.reloaded.iter-seq", "C05.size"],
+        "must_reach": ["C05.reloaded.iter-seq", "C05.size", "C05.modified-reloaded-tree-persists-canonically", "C05.persist-and-reload-do-not-panic"],
         "bounds_statement": "trees from <= K inserts/deletes, persisted and re-loaded, <= K2 further operations, persisted and re-loaded again; both node formats, both v1marshaler decode paths, cache on/off",
         "outside": ["JSON round trip of the Root record and the default JSON marshaler (encoding/json is not encodable)"],
         "assumptions": COMMON_ASSUMPTIONS,
@@ -107,10 +108,10 @@ PROPERTIES = {
     },
     "C08": {
         "runs": {
-            "quick": [H("HarnessC08a", b(K=4, CACHE=0), sample_every=200), H("HarnessC08a", b(K=4, CACHE=1), sample_every=200)],
+            "quick": [H("HarnessC08a", b(K=4, CACHE=0), sample_every=200), H("HarnessC08a", b(K=4, CACHE=2), sample_every=200), H("HarnessC08a", b(K=2, CACHE=1), sample_every=200), H("HarnessC08a", b(N0=3, K=0, CACHE=1), sample_every=200)],
             "thorough": [H("HarnessC08a", b(K=4, CACHE=0), sample_every=200), H("HarnessC08a", b(K=3, CACHE=1))],
         },
-        "must_reach": ["C08.name-is-hash-of-bytes", "C08.bytes-are-canonical-encoding", "C08.reencode-same-root", "C08.child-names-are-names-of-written-nodes", "C08.root-name-is-name-of-a-written-node"],
+        "must_reach": ["C08.name-is-hash-of-bytes", "C08.bytes-are-canonical-encoding", "C08.reencode-same-root", "C08.child-names-are-names-of-written-nodes", "C08.root-name-is-name-of-a-written-node", "C08.same-root-name-same-contents", "C08.unmodified-load-persists-under-the-same-name"],
         "bounds_statement": "every Store call of every history of <= K operations (incl. persist+reload) and of the final persist",
         "assumptions": COMMON_ASSUMPTIONS,
     },
@@ -131,7 +132,9 @@ PROPERTIES = {
     },
     "C10": {
         "runs": {
-            "quick": [H("HarnessC10a", b(N=3, S=2, MODE=m)) for m in (0, 1, 2, 3, 4)] + [H("HarnessC10b", b(N=3, MODE=m)) for m in (0, 1, 2, 3)] + [H("HarnessC10a", b(N=17, S=3, MODE=1, Lmax=4, LRULER=1, CONCRETEKEYS=1), sample_every=20, max_steps=30000000)],
+            "quick": [H("HarnessC10a", b(N=3, S=2, MODE=m)) for m in (0, 1, 2, 3, 4)] + [H("HarnessC10b", b(N=3, MODE=m)) for m in (0, 1, 2, 3)] +
+                     # height-2 shapes with adjacent same-layer keys (nil links inside interior nodes)
+                     [H(h, b(N=5, S=3, MODE=m, LPAT=p), sample_every=5) for h in ("HarnessC10a", "HarnessC10b") for m in (0, 1) for p in (66, 58, 147)] + [H("HarnessC10a", b(N=17, S=3, MODE=1, Lmax=4, LRULER=1, CONCRETEKEYS=1), sample_every=20, max_steps=30000000)],
             "thorough": [H("HarnessC10a", b(N=5, S=3, MODE=m), sample_every=300) for m in (0, 1)] + [H("HarnessC10a", b(N=3, S=5, MODE=0), sample_every=300)] +
                         [H("HarnessC10a", b(N=3, S=2, MODE=m)) for m in (2, 3, 4)] +
                         [H("HarnessC10b", b(N=5, MODE=m), sample_every=300) for m in (0, 1)] + [H("HarnessC10b", b(N=3, MODE=m)) for m in (2, 3, 4)] +
